@@ -67,16 +67,16 @@ func (m *Model) UpdateFanSpeed(fanSpeed *traits.FanSpeed, opts ...resource.Write
 }
 
 func (m *Model) validateUpdate(fanSpeed *traits.FanSpeed) error {
-	if fanSpeed.Preset != "" {
+	if fanSpeed.GetPreset() != "" { // (getters: a request may leave the fan speed out altogether)
 		var found bool
 		for _, preset := range m.presets {
-			if preset.Name == fanSpeed.Preset {
+			if preset.Name == fanSpeed.GetPreset() {
 				found = true
 				break
 			}
 		}
 		if !found {
-			return status.Errorf(codes.InvalidArgument, "unknown preset %v", fanSpeed.Preset)
+			return status.Errorf(codes.InvalidArgument, "unknown preset %v", fanSpeed.GetPreset())
 		}
 	}
 	return nil
